@@ -62,8 +62,24 @@ class Ledger:
         json.dump(self.d, open(self.path, 'w'), indent=0, sort_keys=True)
 
 
+# Once several obligations whose VC differs from the reference tree have stayed undecided, the verdict of the run is settled (regression): the remaining
+# obligations are then tried with a short budget and without the premise variants, so that a check on a broken tree ends in minutes, not hours.
+# On the reference tree, and on a tree with harmless edits, nothing stays undecided and this never triggers.
+DEGRADE_AFTER = 6
+_state = dict(undecided_changed=0)
+_state_lock = __import__('threading').Lock()
+
+def degraded():
+    return _state['undecided_changed'] >= DEGRADE_AFTER
+
 def discharge_one(ob, budget, smoke_budget, ledger_entry, thorough):
     """ob: dict(name, kind, path, hash). Returns result dict."""
+    res = _discharge_one(ob, budget, smoke_budget, ledger_entry, thorough)
+    if res.pop('counted', False) and res['verdict'] in ('unsat', 'sat'):
+        with _state_lock: _state['undecided_changed'] -= 1          # a premise variant decided it after all
+    return res
+
+def _discharge_one(ob, budget, smoke_budget, ledger_entry, thorough):
     res = dict(name=ob['name'], kind=ob['kind'], hash=ob['hash'], tries=[])
     if ob.get('precomputed') is not None:      # obligations decided by direct comparison (syntactic template coverage)
         v = ob['precomputed'] if ob['precomputed'] in ('sat', 'unsat') else 'unknown'
@@ -77,6 +93,10 @@ def discharge_one(ob, budget, smoke_budget, ledger_entry, thorough):
     b = budget
     if ledger_entry and ledger_entry.get('time'):
         b = min(max(budget, 4 * ledger_entry['time']), 4 * budget)
+    fast = degraded()
+    if fast:
+        b = min(b, max(8.0, 3 * (ledger_entry or {}).get('time', 0)))
+        res['tries'].append(('degraded-budget', '', round(b, 1)))
     order = ['z3', 'cvc5']
     if ledger_entry and ledger_entry.get('solver') == 'cvc5':
         order = ['cvc5', 'z3']
@@ -100,7 +120,11 @@ def discharge_one(ob, budget, smoke_budget, ledger_entry, thorough):
             verdict = 'sat'; res['solver'] = sname
             v2, dt2, model = (run_z3 if sname == 'z3' else run_cvc5)(ob['path'], b, model=True)
             break
-    if verdict == 'unknown' and ob.get('focus_path'):
+    if verdict == 'unknown' and not (ledger_entry and ledger_entry.get('hash') == ob['hash']):
+        with _state_lock: _state['undecided_changed'] += 1           # both solvers gave up on the full VC of a changed obligation
+        res['counted'] = True
+    fast = fast or degraded()
+    if verdict == 'unknown' and ob.get('focus_path') and not fast:
         # sound retry with a SUBSET of the premises (quantifier-free path facts, definitions, hint assertions)
         for sname, variant in (('z3', 'focus'), ('z3', 'nohint'), ('cvc5', 'focus'), ('cvc5', 'nohint')):
             v, dt, extra = (run_z3 if sname == 'z3' else run_cvc5)(ob['focus_path'].replace('.focus.', f'.{variant}.'), b)
@@ -108,7 +132,7 @@ def discharge_one(ob, budget, smoke_budget, ledger_entry, thorough):
             res['tries'].append((f'{sname}/{variant}', v, round(dt, 2)))
             if v == 'unsat':
                 verdict = 'unsat'; res['solver'] = f'{sname}/{variant}'; break
-    if verdict == 'unknown' and (thorough or (ledger_entry and ledger_entry.get('verdict') == 'unsat')):
+    if verdict == 'unknown' and thorough and not fast:
         # second round: other seeds / longer budget before an obligation is declared undecided
         for seed in (7, 31):
             v, dt, _ = run_z3(ob['path'], b * 2, seed=seed)
@@ -177,9 +201,9 @@ def discharge_all(obs, ledger, budget=30, smoke_budget=2, thorough=False, jobs=N
                 progress(i, r)
     # retry round: what stayed undecided while all cores were busy is re-tried on a quiet machine, all variants in parallel
     retry = [i for i, r in enumerate(results) if r['kind'] != 'smoke' and r['verdict'] not in ('unsat', 'sat') and obs[i].get('path')]
-    if retry and len(retry) <= 48:
+    if retry and len(retry) <= 6 and not degraded():
         with ThreadPoolExecutor(max_workers=2) as pool:
-            futs = {i: pool.submit(portfolio, obs[i], budget * 4) for i in retry}
+            futs = {i: pool.submit(portfolio, obs[i], budget * 2) for i in retry}
             for i, f in futs.items():
                 pr = f.result()
                 r = results[i]
